@@ -1037,6 +1037,19 @@ def oracle_C07(objs, st=None):
     st = st or Stats()
     for kind in ('frv', 'mir', 'rev'):
         oracle_sym(objs, st, kind)
+    # the symmetry flag on the smallest asymmetries, one coefficient array at a time and with either sign (a flag computed
+    # from max() instead of max(abs()), or from two of the four arrays, is wrong for exactly one of these)
+    from qsc import Qsc
+    for what, kwx in (('rs < 0 only', dict(rs=[0, -0.004])), ('rs > 0 only', dict(rs=[0, 0.004])), ('zc < 0 only', dict(zc=[0, -0.003])), ('zc > 0 only', dict(zc=[0, 0.003])),
+                      ('rs, zc < 0 in the second harmonic only', dict(rc=[1, 0.05, 0.0], zs=[0, -0.05, 0.0], rs=[0, 0, -0.002], zc=[0, 0, -0.001])),
+                      ('sigma0 < 0 only', dict(sigma0=-0.1)), ('sigma0 > 0 only', dict(sigma0=0.1)), ('symmetric', dict())):
+        kwa = dict(dict(rc=[1, 0.05], zs=[0, -0.05], nfp=2, etabar=0.9, order='r1', nphi=15), **kwx)
+        qa = Qsc(**kwa)
+        st.check('asymmetric input is reported asymmetric, symmetric input symmetric', float(bool(qa.lasym) != (what != 'symmetric')), 0.0, dict(kind='synth', kwargs=kwa, asymmetry=what))
+    for what, kwx in (('B2s < 0 only', dict(B2s=-0.2)), ('B2s > 0 only', dict(B2s=0.2))):
+        kwa = dict(dict(rc=[1, 0.05], zs=[0, -0.05], nfp=2, etabar=0.9, B2c=0.1, order='r2', nphi=15), **kwx)
+        qa = Qsc(**kwa)
+        st.check('asymmetric input is reported asymmetric, symmetric input symmetric', float(not bool(qa.lasym)), 0.0, dict(kind='synth', kwargs=kwa, asymmetry=what))
     # symmetric input -> definite parity and reported symmetric; asymmetric input reported asymmetric
     for c, q, cap in objs:
         cid = case_id(c)
@@ -1093,6 +1106,13 @@ def oracle_C19(objs, st=None):
             out = {'iota2 unchanged by moving the toroidal origin': abs(b - qq.iota2) / (abs(qq.iota2) + 1e-300)}
             return out
         for k_, (eff, hist) in ladder_verdict(defects, c, q, 1e-5 if sym else 1e-3).items():
+            # the shifted description of a symmetric configuration is not symmetric: it is integrated by the trapezoid rule,
+            # whose error is second order in the grid step - a defect that falls by a factor >= 3 per doubling of nphi is
+            # discretisation error of that quadrature (the property's "converges as nphi increases"), not a dependence on the origin
+            nums = [h_ for h_ in hist if isinstance(h_, float)]
+            if len(nums) >= 3 and all(nums[j_ + 1] * 3.0 <= nums[j_] for j_ in range(len(nums) - 2, len(nums) - 1)) and nums[-1] * 3.0 <= nums[-2] and nums[-2] * 3.0 <= nums[-3]:
+                hist = hist + ['second-order convergent: quadrature error']
+                eff = min(eff, (1e-5 if sym else 1e-3) * 0.999)
             st.check('C19 ' + k_ + (' (symmetric branch)' if sym else ' (trapezoid branch)'), eff, 1e-5 if sym else 1e-3, cid, detail=dict(by_resolution=hist))
         if sym:
             eps = 1e-7
